@@ -123,6 +123,8 @@ impl FeoxStore {
             return Err(FeoxError::StaleExtent);
         }
         crate::test_hooks::pause_at(crate::test_hooks::AFTER_SECTOR_LOAD);
+        #[cfg(feature = "verif")]
+        crate::verif::sched("read.pinned", sector, 0);
 
         // Get the appropriate format handler
         let format = get_format_ref(self.format_version);
@@ -143,8 +145,16 @@ impl FeoxStore {
             })?
             .read();
 
+        #[cfg(all(feature = "verif", target_os = "linux"))]
+        crate::verif::extent_pinned(disk_io.verif_file_id(), sector, sectors_needed as u64);
+        #[cfg(feature = "verif")]
+        crate::verif::sched("read.before_pread", sector, sectors_needed as u64);
         let data = disk_io.read_sectors_sync(sector, sectors_needed as u64)?;
+        #[cfg(all(feature = "verif", target_os = "linux"))]
+        crate::verif::extent_unpinned(disk_io.verif_file_id(), sector, sectors_needed as u64);
         drop(extent);
+        #[cfg(feature = "verif")]
+        crate::verif::sched("read.after_pread", sector, sectors_needed as u64);
 
         if !sector_holds_record(&data, &source) {
             return Err(FeoxError::StaleExtent);
